@@ -46,7 +46,7 @@ theorem inv_define (H : Heap) (kindOf : Ptr → Kind × Nat) (S : SerSt) (D : De
       · rw [hdefs, lookup_head]
     · rw [lookup_tail _ _ _ _ hpp] at h'
       obtain ⟨q0, payload0, a1, a2, a3, a4, a5, a6⟩ := inv.stored p' id' h'
-      have hid : id' ≠ S.next := Nat.ne_of_lt (inv.tab p' id' h').2
+      have hid : id' ≠ S.next := Nat.ne_of_lt (tableOK_lookup inv.tab h').2
       refine ⟨q0, payload0, a1, a2, a3, ?_, ?_, ?_⟩
       · rw [hstore, lookup_tail _ _ _ _ (old_key_ne _ _ a4)]
         exact a4
@@ -153,7 +153,7 @@ theorem flat_step (H : Heap) (kindOf : Ptr → Kind × Nat) (fuel fuel' : Nat) (
       simp only [Option.some.injEq] at a1
       subst a1
       rw [hk] at a4
-      have hid : id ≠ 0 := Nat.ne_of_gt (inv.tab p id h1).1
+      have hid : id ≠ 0 := Nat.ne_of_gt (tableOK_lookup inv.tab h1).1
       rw [de_strong_alias k tid id hid payload hp ht D inv.opn a6 q a4] at hde
       simp only [Except.ok.injEq, Prod.mk.injEq] at hde
       obtain ⟨rfl, _, rfl⟩ := hde
@@ -181,7 +181,7 @@ theorem flat_step (H : Heap) (kindOf : Ptr → Kind × Nat) (fuel fuel' : Nat) (
       exact ⟨inv, Ext.refl _ _, Or.inl ⟨hn, rfl⟩⟩
     · obtain ⟨q, payload0, a1, a2, a3, a4, a5, a6⟩ := inv.stored p id h1
       rw [hk] at a4
-      have hid : id ≠ 0 := Nat.ne_of_gt (inv.tab p id h1).1
+      have hid : id ≠ 0 := Nat.ne_of_gt (tableOK_lookup inv.tab h1).1
       rw [de_weak_alias k tid id hid payload0 a2 D inv.opn a6 q a4] at hde
       simp only [Except.ok.injEq, Prod.mk.injEq] at hde
       obtain ⟨rfl, _, rfl⟩ := hde
@@ -266,7 +266,7 @@ theorem flat_list (H : Heap) (kindOf : Ptr → Kind × Nat) (fuel fuel' : Nat) :
 
 theorem inv_init (H : Heap) (kindOf : Ptr → Kind × Nat) : Inv H kindOf {} {} := by
   refine ⟨rfl, rfl, ?_, ?_, Nat.le_refl 1, rfl, rfl, ?_, ?_, ?_⟩
-  · intro p id h; simp [List.lookup] at h
+  · intro p id h; simp at h
   · intro p q id h; simp [List.lookup] at h
   · intro p id h; simp [List.lookup] at h
   · intro key v h; simp [List.lookup] at h
